@@ -108,6 +108,7 @@ func init() {
 					p.Spec = engine.RateSpec(mode, c, 5, c)
 				}
 				p.Spec.IgnoreDropped = true
+				p.Spec.Interactive, p.Spec.Verbose = r.IntN(3) == 0, r.IntN(4) == 0
 				ns := r.IntN(5)
 				for k := 0; k < ns; k++ {
 					f := cfPass
